@@ -51,9 +51,30 @@ def environments(tier):
     for batch in (0, 2):
         for acts in shapes(tier):
             for ctx in M.CTX_KINDS:
-                for rwd in M.RWD_KINDS:
+                for rwd in M.RWD_KINDS + M.RWD_MORE:
                     if tier == 'quick' and not (ctx == 'dense' or (rwd == 'list' and acts in (['int'], ['str', 'tup'], ['bin', 'int', 'str']))): continue
+                    if rwd == 'dmap' and 'map' in acts: continue          # dict actions cannot key a mapping
+                    if rwd in M.RWD_MORE and ctx not in ('dense', 'absent'): continue
                     d = emit({'n': len(acts), 'ctx': ctx, 'acts': acts, 'rwd': rwd, 'log': list(LOG_ALL), 'extras': 1, 'batch': batch})
+                    if d: yield d
+    # F4: representation - categorical actions / contexts (what Finalize changes) x every reward kind (list, Binary, Discrete in order / as a
+    # mapping / in another order, plain callable, custom Rewards object) x batching: the learner must see the one-hot values and every
+    # interaction must keep ITS OWN reward function and logged action after the re-keying (also when a whole batch is pulled through
+    # Finalize before the first reward is asked, and in the ips modes whose reward is keyed by the logged action).
+    if tier == 'quick':
+        cat_shapes = [['cat'], ['cat', 'cat'], ['cat', 'cat2'], ['cat', 'cat2', 'cat'], ['cat2', 'cat', 'cat']]
+    else:
+        cat_shapes = [list(t) for n in (1, 2, 3) for t in itertools.product(M.CAT_ACTSETS, repeat=n)]
+    for batch in ((0, 2) if tier == 'quick' else (0, 2, 3)):
+        for acts in cat_shapes:
+            for ctx in (('dense',) if tier == 'quick' else ['dense', 'absent'] + M.CAT_CTX_KINDS):
+                for rwd in M.RWD_KINDS + M.RWD_MORE:
+                    d = emit({'n': len(acts), 'ctx': ctx, 'acts': acts, 'rwd': rwd, 'log': list(LOG_ALL), 'extras': 1, 'batch': batch, 'fam': 'F4'})
+                    if d: yield d
+        for ctx in M.CAT_CTX_KINDS:
+            for acts in (['cat', 'cat2'], ['int', 'str'], ['cat2', 'cat', 'cat']):
+                for rwd in ('list', 'callable'):
+                    d = emit({'n': len(acts), 'ctx': ctx, 'acts': acts, 'rwd': rwd, 'log': list(LOG_ALL), 'extras': 1, 'batch': batch, 'fam': 'F4'})
                     if d: yield d
     # F3: recurrence - every action-set sequence in {A,B}^3 (A,A,A .. A,B,A .. B,B,B) for pairs of sets that do / do not contain 0 or 1
     # (ints and floats) and pairs of other kinds, with contexts that are distinct or return to an earlier value (x0,x1,x0 / x0,x0,x1):
@@ -101,7 +122,9 @@ class C06(Check):
     LEVEL = 'exploration'
     ENGINE = 'ENUM'
     RULE = ('cases = (environment descriptor, learn mode, eval mode, recording-learner spec), each run for every record set of the tier; '
-            'environments are three exhaustive products (data shapes: context kind x action-set sequence n<=3 x reward kind x batching; '
+            'environments are four exhaustive products (representation: categorical action-set sequences / categorical contexts x 7 reward kinds '
+            '(list, Binary, Discrete in order / as mapping / reordered, callable, custom Rewards) x batching; '
+            'data shapes: context kind x action-set sequence n<=3 x reward kind x batching; '
             'recurrence: every sequence in {A,B}^3 (thorough also ^4) for pairs of action sets with/without 0 or 1 (ints, floats) and other kinds x '
             'contexts distinct or returning to an earlier value x batching; field '
             'presence: actions/rewards/each subset of logged action,reward,probability/0-2 extra fields x batching); a case is non-trivial '
@@ -117,7 +140,10 @@ class C06(Check):
         'probability of a learner that returns none: key absent or None; context of an environment without context: key absent or None',
         'row keys other than reward/action/probability/requested ones are not constrained; an empty row may be dropped; on a batched '
         'environment rows that hold nothing but predict_time/learn_time may be one per batch',
-        'interactions that are empty dicts are outside the alphabet; every interaction of one environment has the same keys',
+        'interactions that are empty dicts are outside the alphabet; every interaction of one environment has the same keys; the action sets of '
+        'one environment are either all categorical or all non-categorical',
+        'categorical values are compared after Finalize\'s one-hot normalisation as HEAD implements it: a Categorical value/action -> its one-hot, '
+        'inside a dense context spliced in place, inside a sparse context key -> "<key>_<level index>": 1',
         'a bare Mapping action answered without probability is ambiguous with coba\'s {"action":..} hint dicts (prediction-format detection is C15\'s '
         'subject); such failures are classified under their own SafeLearner|bare Mapping action key',
         'rejection = a CobaException before the first learner call and before the first row',
@@ -130,13 +156,15 @@ class C06(Check):
                   'unbatched/Batch(2) (quick: sequences x reward kinds with a dense context plus context kinds x 3 sequences; thorough: the full product '
                   'incl. all ordered pairs of action kinds); (a2) recurrence = every action-set sequence in {A,B}^3 (A,B,A, A,A,B, .. ; thorough also '
                   '{A,B}^4) for pairs of sets that do / do not contain 0 or 1 as ints or floats ([0,1,2]/[3,4,5], [0,1]/[1,2], [0.0,0.5,1.0]/[2.5,3.5], ..) '
-                  'and other kinds, with contexts that are distinct or return to an earlier value; (b) field presence = actions/rewards present or not x every subset of logged '
+                  'and other kinds, with contexts that are distinct or return to an earlier value; (a3) representation = categorical action-set '
+                  'sequences and categorical / dense-with-categorical / sparse-with-categorical contexts x 7 reward kinds x unbatched/Batch(2) '
+                  '(thorough also Batch(3)), so every mode incl. the ips modes runs on data that Finalize re-encodes; (b) field presence = actions/rewards present or not x every subset of logged '
                   'action/reward/probability x 0..2 extras x context present or not x batching. Each is evaluated by the real SequentialCB for learn in '
                   '{on,off,ips,None} x eval in {on,ips,None} x learner formats x record sets (quick: default, 7 singletons, all 7, none; thorough: these '
                   'on every environment and all 128 subsets on the quick environments); the full call trace seen by the learner and all rows are '
                   'compared with the reference model.')
     LEVEL_NOTE = ('small-scope hypothesis (<=3 interactions, <=3 actions, batch size 2); learners answer action / (action,prob) / (action,kwargs) / '
-                  '(action,prob,kwargs) only; categorical (one-hot) encoding by Finalize is left to C10')
+                  '(action,prob,kwargs) only; dense/sparse ACTIONS containing categoricals are left to C10')
     MIN_NONTRIVIAL = {'quick': 10000, 'thorough': 80000}
     CASE_TIMEOUT = 60
 
@@ -151,6 +179,7 @@ class C06(Check):
             for env in environments('quick'):
                 # record subsets are orthogonal to action/context recurrence: of F3 only the 0/1 <-> no-0/1 int pair gets all 128 subsets
                 if env.get('fam') == 'F3' and ('cseq' in env or not set(env['acts']) <= {'zo3', 'hi3'}): continue
+                if env.get('fam') == 'F4' and env['acts'] != ['cat', 'cat2']: continue
                 for lrn in learners('quick', env['batch']):
                     for learn in LEARNS:
                         for ev in EVALS:
